@@ -29,7 +29,7 @@ RULE = (
 )
 ASSUMPTIONS = [
     "links have both ends assigned (a None end makes 'the opposite end' None; excluded by construction)",
-    "filters are pure functions of (link identity, vertex identity); they may be callable objects whose truth value is False",
+    "filters are pure functions of (link identity, vertex identity); they may be callable objects whose truth value is False, and they may be PARTIAL: defined only for links that qualify under the direction / unknown-type rules (asked about any other link they raise)",
     "value-equal vertices (a Vertex subclass overriding __eq__/__hash__) appear only in graphs built by constructors alone",
     "under LNK_UNKNOWN_ERROR, when the filter rejects an unknown-class link both 'raises NotImplementedError' and 'skips it' are accepted (the statement fixes neither)",
 ]
@@ -39,6 +39,10 @@ LEVEL_TEXT = (
 )
 LEVEL_NOTE = "Trusts ref_neighbors in eglib/model.py (20 lines over ints, written from the statement). Search, not proof."
 TECHNIQUE = "exhaustive decision-table enumeration + Hypothesis multigraphs against a reference implementation, plus a metamorphic FORWARD/BACKWARD duality"
+
+class _FilterMisuse(Exception):
+    pass
+
 
 DIRS = (FORWARD, ANY, BACKWARD)
 UNKS = (NONNEIGHBOR, NEIGHBOR, ERROR)
@@ -170,7 +174,31 @@ def _check_world(case, vs, ls):
                     exp = ref_neighbors(G, v, d, u, f, lenient=lenient)
                 except RefNotImplemented:
                     exp = "NIE"
-                got = run_real(vs, v, d, u, ff, vi, churn=bool(case.get("cache")) and bool(case.get("order", 0) & 1))
+                ffx = ff
+                if ff is not None and case.get("order", 0) % 3 == 2 and not hasattr(ff, "fn"):
+                    # a PARTIAL filter: defined only for the links it is documented to be asked about, i.e. links
+                    # that qualify under the direction / unknown-type rules; anything else makes it raise
+                    qual = set()
+                    for l in lk:
+                        kind, a_, b_ = G.link[l]
+                        try:
+                            from eglib.model import ref_follow
+
+                            if ref_follow(kind, a_, b_, v, d, u):
+                                qual.add(l)
+                        except RefNotImplemented:
+                            qual.add(l)
+                    inner_ff = ff
+
+                    def ffx(e, x, _q=qual, _inner=inner_ff):
+                        if li[id(e)] not in _q:
+                            raise _FilterMisuse(f"filter asked about link {li[id(e)]}, which does not qualify")
+                        return _inner(e, x)
+
+                try:
+                    got = run_real(vs, v, d, u, ffx, vi, churn=bool(case.get("cache")) and bool(case.get("order", 0) & 1))
+                except _FilterMisuse as e:
+                    raise Violation("filter-called-on-non-qualifying-link", f"neighbors(v{v}, direction={d}, unknown={u}): {e}")
                 table[(v, d, u)] = got
                 where = f"neighbors(v{v}, direction={d}, unknown={u}, filter={case['f']})"
                 if lenient and exp != "NIE":
